@@ -1,7 +1,7 @@
 PROP = dict(
     id="C15",
     lean_modules=["TongoProofs.C15"],
-    gen=["WalletConsts"],
+    gen=["WalletConsts", "WalletV5Id"],
     # the model IS the specification for these ops: the address is defined as the hash of the state-init laid out as
     # the TON schema says, the send parameters and the confirmation verdict are what the property states
     spec_ops=("w.addr", "w.gwa", "w.gsi", "w.send", "w.ctx", "cell.hash"),
